@@ -27,6 +27,13 @@ import (
 //	shortS0 / shortS6 / longS13 and the same for C: as rogueS / rogueC, but the Finished keeps a PREFIX of
 //	        the correct verify_data (0 or 6 of its 12 bytes) or the correct value plus one more byte: a
 //	        comparison that is not an exact-length comparison accepts these
+//	junkC / junkS  nothing is altered: while a FULL handshake is under way (the plan deletes the client's
+//	        session first) one unauthenticated, undecodable record (an alert record with a one-byte body)
+//	        reaches the client right behind its ClientKeyExchange flight / the server right behind its
+//	        ServerHelloDone flight. An endpoint that answers with a fatal alert must not keep, offer or accept
+//	        the session of that connection afterwards.
+var JunkKinds = []string{"junkC", "junkS"}
+
 var TamperKinds = []string{"flipS", "flipC", "rogueS", "rogueC", "mitmCH", "mitmSH", "shortS0", "shortC0", "shortS6", "shortC6", "longS13", "longC13"}
 
 // rebuild reassembles a datagram from parsed records, replacing record i by repl.
@@ -104,6 +111,7 @@ func MakeTamperer(h *Hist, kind string, failed *string) Tamperer {
 			}
 		}
 	}
+	junkSent := false
 	secret := func() []byte {
 		// the session secret, as the client's store holds it (a rogue peer that stole the session)
 		return h.CS.Snapshot()[ClientKey].Secret
@@ -116,6 +124,31 @@ func MakeTamperer(h *Hist, kind string, failed *string) Tamperer {
 		learn(d, recs)
 		fromClient := d.Src == world.ClientAddr
 		switch kind {
+		case "junkC", "junkS":
+			toClient := kind == "junkC"
+			for _, r := range recs {
+				if r.Epoch != 0 || r.Type != world.CTHandshake {
+					continue
+				}
+				for _, f := range r.HS {
+					// the client's ClientKeyExchange (16) passing towards the server / the server's ServerHelloDone (14)
+					// passing towards the client: the victim has sent its flight and waits
+					if (toClient && fromClient && f.Type == 16) || (!toClient && !fromClient && f.Type == 14) {
+						if junkSent {
+							return nil
+						}
+						junkSent = true
+						junk := []byte{21, 0xfe, 0xfd, 0, 0, 0, 0, 0x7f, 0, 0, 0x01, 0, 1, 2}
+						if toClient {
+							w.Push(world.ServerAddr, world.ClientAddr, junk)
+						} else {
+							// the server is still waiting for the client's flight: the junk overtakes it
+							w.Push(world.ClientAddr, world.ServerAddr, junk)
+						}
+						return append([]byte(nil), d.Data...)
+					}
+				}
+			}
 		case "flipS", "flipC":
 			if fromClient != (kind == "flipC") {
 				return nil
